@@ -61,7 +61,9 @@ def run(rep, work, tier, seed, only=None):
             if o.get('n_rows') != 1 or o.get('p_th_fss') is None or math.isnan(o['p_th_fss']):
                 probs.append('no threshold row / NaN threshold')
             else:
-                if abs(o['p_th_fss'] - p['p_th']) > TOL:
+                # a shallow curve (small nu, small B) is not expected back to 1 %: there the planted value must lie in the reported
+                # confidence interval (checked below), the fit must be flagged successful and must not depend on the order
+                if abs(o['p_th_fss'] - p['p_th']) > TOL and not p.get('shallow'):
                     probs.append('reported threshold %.5f, planted %.5f' % (o['p_th_fss'], p['p_th']))
                 if not (o['p_th_fss_left'] <= o['p_th_fss'] <= o['p_th_fss_right']):
                     probs.append('threshold %.5f outside its own confidence interval [%.5f, %.5f]' % (o['p_th_fss'], o['p_th_fss_left'], o['p_th_fss_right']))
